@@ -1,17 +1,27 @@
-"""C06 — tasks run exactly once before the loop sleeps and cannot starve polling."""
-from ..core import (names_of, same_value, AnalysisBroken, Inliner, canon, strip, last_member, must_pass, relpath, norm_cond, walk, forward)
-from ..analyses import (is_call, holding, path_to, describe, exits_of, callback_kind, loops, innermost_loop,
-                        must_pass_from_block, list_empty_test)
-from . import c01, c18
+"""C06 — tasks run exactly once before the loop sleeps and cannot starve polling.
+
+All rules are formulated on *sites* (the indirect call through a task's handler field, the call that links a
+task into a list, the stores to a task's round stamp / the round counter / the running-batch pointer, the call
+that enters the kernel wait) evaluated in the smallest exported calling context that reaches them with every
+internal helper inlined (h06.minimal_roots + core.Inliner), never on names of static functions, locals or
+parameters, expression text or the loop form.  See h06.py for the analyses.
+"""
+from ..core import AnalysisBroken, strip, last_member, relpath, forward, norm_cond
+from ..analyses import path_to, describe, callback_kind
+from .. import roles
+from . import c18
+from . import h06 as h
 
 
 def run(ctx):
     ctx.rule('R-C06a', 'a task is unlinked, counted out and stamped with the current round before its handler is called; '
-                       'the round counter is advanced before the first handler of a round', floor=4)
+                       'the round counter is advanced before the first handler of a round and written by nobody else; '
+                       'the runner returns only when the detached batch is empty', floor=6)
     ctx.rule('R-C06b', 'with tasks pending the poll deadline is the address of a local timespec whose both fields were stored 0', floor=1)
     ctx.rule('R-C06c', 'tasks run in every loop iteration before the poll call', floor=1)
-    ctx.rule('R-C06d', 'a task is linked into the running batch only on the edge where its round stamp differs from the '
-                       'current round (a task that already ran this round is deferred to the next)', floor=3)
+    ctx.rule('R-C06d', 'a task is linked exactly once, into the running batch only on the edge where its round stamp differs from the '
+                       'current round (a task that already ran this round is deferred to the next); every store to a round stamp '
+                       'stores the current round', floor=5)
     ctx.rule('R-C06e', 'the running-batch pointer (address of a local) is cleared on every exit of the runner', floor=1)
     ctx.rule('R-C06f', 'the zero deadline reaches the kernel wait: the poll gets the caller\'s deadline unless a kernel timer is armed for a '
                        'deadline that is not later (shared with C04 R-C04f)', floor=3)
@@ -23,164 +33,317 @@ def run(ctx):
     ctx.section(batch_pointer)
 
 
+# --------------------------------------------------------------------------
+# R-C06a: the task handler call site
+# --------------------------------------------------------------------------
+
+def _runner_contexts(prog):
+    """[(root, inlined root, TaskFlow, [(call event, facts, token)])] for the smallest exported contexts of the task handler call"""
+    out = []
+    for r in h.minimal_roots(prog, h.handler_users(prog)):
+        g = h.inlined(prog, r)
+        tf = h.TaskFlow(prog, g)
+        sites = []
+        for e in g.events():
+            if e['ev'] != 'call' or 'fnexpr' not in e:
+                continue
+            S = tf.at.get((e['_b'], e['_i']))
+            if S is None:
+                continue
+            t = tf.handler_token(e, S)
+            if t is not None:
+                sites.append((e, S, t))
+        if sites:
+            out.append((r, g, tf, sites))
+    return out
+
+
 def runner(ctx):
     prog = ctx.prog
-    f = prog.fn('iv_run_tasks')
-    sites = [e for e in f.events() if callback_kind(e) == ('callback', 'task')]
-    if not sites:
+    cs = _runner_contexts(prog)
+    if not cs:
         raise AnalysisBroken('task handler call site not found')
-    lps = loops(f)
-    for cs in sites:
-        obj = canon(strip(cs['fnexpr'])['base'])
-        h = innermost_loop(f, cs['_b'], lps)
-        if h is None:
-            raise AnalysisBroken('task handler call not in a loop')
-        def per_iter(pred):
-            def tr(e, s):
-                return True if pred(e) else s
-            def edge(blk, si, s):
-                return False if blk.succ[si] == h else s
-            _, ev_in = forward(f, False, tr, lambda a, b: a and b, edge=edge)
-            return bool(ev_in.get((cs['_b'], cs['_i'])))
-        ok = per_iter(lambda e: is_call(e, ('iv_list_del', 'iv_list_del_init')) and canon(e['args'][0]) == '&%s->list' % obj)
-        ctx.ob('R-C06a', 'iv_run_tasks:unlinked', ok, loc=cs['loc'], detail='iv_list_del*(&%s->list) before the handler, every iteration' % obj, fn=f.q)
-        ok = per_iter(lambda e: e['ev'] == 'store' and last_member(e['lhs']) == ('iv_state', 'numobjs') and e['op'] == '--')
-        ctx.ob('R-C06a', 'iv_run_tasks:counted-out', ok, loc=cs['loc'], detail='numobjs-- before the handler (the task is unregistered when its handler runs)', fn=f.q)
-        # stamp: obj->epoch = V where V was assigned from the pre-incremented round counter
-        stamps = [e for e in f.events() if e['ev'] == 'store' and last_member(e['lhs']) == ('iv_task_', 'epoch')
-                  and canon(strip(e['lhs'])['base']) == obj]
-        ok = bool(stamps) and per_iter(lambda e: e in stamps)
-        src_ok = False
-        for s in stamps:
-            v = strip(s['rhs'])
-            if last_member(v) == ('iv_state', 'task_epoch'):
-                src_ok = True
-            elif isinstance(v, dict) and v.get('k') == 'var':
-                for d in f.events():
-                    if d['ev'] == 'store' and canon(d['lhs']) == v['name'] and any(
-                            last_member(x) == ('iv_state', 'task_epoch') for x in walk(d.get('rhs', {})) if x.get('k') == 'member'):
-                        src_ok = True
-        ctx.ob('R-C06a', 'iv_run_tasks:stamped', ok and src_ok, loc=cs['loc'],
-               detail='%s->epoch is stored the current round number before the handler' % obj, fn=f.q)
-        adv = must_pass(f, lambda e: e['ev'] == 'store' and last_member(e['lhs']) == ('iv_state', 'task_epoch') and e['op'] in ('++', '+='))
-        ctx.ob('R-C06a', 'iv_run_tasks:round-advanced', bool(adv.get((cs['_b'], cs['_i']))), loc=cs['loc'],
-               detail='st->task_epoch is advanced before the first handler of the round', fn=f.q)
+    by_site = {}
+    for (r, g, tf, sites) in cs:
+        for (e, S, t) in sites:
+            by_site.setdefault((h.origin_fn(prog, g, e).name, e['loc']), []).append((r, g, e, S, t))
+    for (owner, loc), items in sorted(by_site.items()):
+        r, g, e0 = items[0][0], items[0][1], items[0][2]
+
+        def every(fact):
+            return all(t != 'unknown' and fact(t) in S for (_, _, _, S, t) in items)
+        bad = lambda fact: next(((g_, e) for (_, g_, e, S, t) in items if t == 'unknown' or fact(t) not in S), None)
+        ok = every(lambda t: ('unl', t))
+        b = bad(lambda t: ('unl', t))
+        ctx.ob('R-C06a', '%s:unlinked' % owner, ok, loc=loc,
+               detail='between the definition of the task pointer and %s the task\'s list node is removed from its list on every path' % describe(e0),
+               path=None if ok else path_to(b[0], b[1]), fn=r.q)
+        ctx.ob('R-C06a', '%s:counted-out' % owner, all(('counted',) in S for (_, _, _, S, _) in items), loc=loc,
+               detail='numobjs is decremented between the previous task handler call (or entry) and this one: '
+                      'the task is unregistered when its handler runs', fn=r.q)
+        ctx.ob('R-C06a', '%s:stamped' % owner, every(lambda t: ('stamp', t)), loc=loc,
+               detail='the task\'s round stamp is stored a value equal to the round counter before the handler', fn=r.q)
+        ctx.ob('R-C06a', '%s:round-advanced' % owner, all(('adv',) in S for (_, _, _, S, _) in items), loc=loc,
+               detail='the round counter is advanced by one before the first handler of the round', fn=r.q)
+    # the equalities above survive callbacks and calls only if nobody else changes the round counter: any store to it outside
+    # the function that runs the handlers (and its helpers) may only be an initialisation with a constant
+    seen = set()
+    for (r, g, tf, sites) in cs:
+        for e in g.events():
+            if e['ev'] == 'store' and h.COUNTER in h.lvalue_steps(e['lhs']):
+                seen.add(e['loc'])
+    ws = prog.writers_of(*h.COUNTER)
+    foreign = [(f, e) for (f, e) in ws if e['loc'] not in seen and not (e.get('op') == '=' and h.is_int(e.get('rhs')))]
+    r0 = cs[0][0]
+    ctx.ob('R-C06a', 'round-counter:changed-only-by-the-runner', not foreign,
+           loc=foreign[0][1]['loc'] if foreign else (ws[0][1]['loc'] if ws else r0.loc),
+           detail='every store to the round counter other than an initialisation with a constant lies in the function that runs the '
+                  'task handlers (or its helpers)%s' % ((': %s in %s' % (describe(foreign[0][1]), foreign[0][0].name)) if foreign else ''), fn=r0.q)
+
+
+# --------------------------------------------------------------------------
+# R-C06b / R-C06c: the kernel wait of the main loop
+# --------------------------------------------------------------------------
+
+def _deadline_arg(prog, g, e):
+    t = h.callee_of(prog, g, e)
+    args = e.get('args', [])
+    if t is not None:
+        idx = [i for i, p in enumerate(t.params) if p.get('record') == 'timespec' and p.get('ptr')]
+        if len(idx) == 1 and idx[0] < len(args):
+            return args[idx[0]]
+    idx = [i for i, a in enumerate(args) if any(x.get('record') == 'timespec' for x in h.walk(a))]
+    if len(idx) == 1:
+        return args[idx[0]]
+    raise AnalysisBroken('%s: deadline argument of %s not identified' % (g.name, describe(e)))
 
 
 def zero_timeout(ctx):
+    """(also R-C02e)  Root: the exported function from which both a task handler call and the poll slot of the poll
+    method are reachable.  It is analysed with static helpers inlined; other exported functions stay calls.
+    wait site = call of a function from which the poll slot is reachable."""
     prog = ctx.prog
-    f = prog.fn('iv_main')
-    g = Inliner(prog, stop=lambda t: t.name in ('iv_fd_poll_and_run', 'iv_run_tasks', 'iv_run_timers', 'iv_get_soonest_timeout')).inline(f)
-    polls = [e for e in g.events() if is_call(e, 'iv_fd_poll_and_run')]
-    if len(polls) != 1:
-        raise AnalysisBroken('iv_main: poll call not found')
-    poll = polls[0]
-    lps = loops(g)
-    h = innermost_loop(g, poll['_b'], lps)
-    cut = frozenset((b, si) for b in lps[h] for si, s in enumerate(g.blocks[b].succ) if s == h)
-    # the pending-tasks branch
-    found = False
-    for b, blk in g.blocks.items():
-        if not (blk.term and blk.term.get('cond') is not None and len(blk.succ) == 2):
-            continue
-        for si in (0, 1):
-            for atom in norm_cond(blk.term['cond'], si == 0):
-                t = list_empty_test(atom, member_key=('iv_state', 'tasks'))
-                pend = (t == 'nonempty')
-                (op, lc, rc, l, r) = atom
-                if not pend and lc.startswith('$ret') and op == '!=' and rc == '0':
-                    # inlined iv_pending_tasks(): its return temporary
-                    pend = any(e['ev'] == 'store' and canon(e['lhs']) == lc and 'iv_list_empty' in canon(e.get('rhs', {})) for e in g.events())
-                if not pend:
-                    continue
-                found = True
-                start = blk.succ[si]
-                dl = canon(poll['args'][1])
-                asg = [e for e in g.events() if e['ev'] == 'store' and canon(e['lhs']) == dl]
-                def zero(field):
-                    return lambda e: e['ev'] == 'store' and e.get('op') == '=' and canon(e.get('rhs')) == '0' \
-                        and last_member(e['lhs']) == ('timespec', field)
-                for what, pred in (('deadline-is-local', lambda e: e in asg and strip(e['rhs']).get('k') == 'addr'
-                                    and strip(strip(e['rhs'])['e']).get('vk') == 'local'),
-                                   ('tv_sec=0', zero('tv_sec')), ('tv_nsec=0', zero('tv_nsec'))):
-                    mp = must_pass_from_block(g, start, pred, cut=cut)
-                    ok = bool(mp.get((poll['_b'], poll['_i'])))
-                    ctx.ob('R-C06b', 'iv_main:pending-tasks:%s' % what, ok, loc=poll['loc'],
-                           detail='on every path from the tasks-pending edge to the poll call: %s' % what, fn=f.q)
-    if not found:
-        ctx.ob('R-C06b', 'iv_main:pending-tasks:tested', False, loc=poll['loc'],
-               detail='the poll deadline does not depend on a test of the pending-task list: with tasks pending the loop may sleep', fn=f.q)
-    # R-C06c
-    def tr(e, s):
-        return True if is_call(e, 'iv_run_tasks') else s
-    def edge(blk, si, s):
-        return False if blk.succ[si] == h else s
-    _, ev_in = forward(g, False, tr, lambda a, b: a and b, edge=edge)
-    ctx.ob('R-C06c', 'iv_main:tasks-before-poll', bool(ev_in.get((poll['_b'], poll['_i']))), loc=poll['loc'],
-           detail='iv_run_tasks is executed in every iteration before iv_fd_poll_and_run', fn=f.q)
+    waiters = roles.functions_with(prog, lambda e: callback_kind(e) == ('method', 'poll'))
+    if not waiters:
+        raise AnalysisBroken('no call through the poll slot of the poll method')
+    W = h.closure_q(prog, waiters)
+    # functions from which a real task handler call site is reached
+    T = h.closure_q(prog, [c[0] for c in _runner_contexts(prog)])
+    if not T:
+        raise AnalysisBroken('task handler call site not found')
+    rootq = {r.q: r for r in roles.roots(prog)}
+    mains = [rootq[q] for q in sorted(rootq) if q in W and q in T]
+    # the innermost such functions: not those that merely call one (a thread body calling the main loop)
+    mains = [m for m in mains if not any(d.q != m.q and m.q in h.closure_q(prog, [d]) for d in mains)]
+    if not mains:
+        raise AnalysisBroken('no exported function both runs tasks and enters the kernel wait')
+    touch = h.may_touch_tasks(prog)
+    nsites = 0
+    for M in mains:
+        # other exported functions that wait, run tasks or may run user code stay calls; the rest is inlined
+        stopq = (set(rootq) & (W | T | touch)) - {M.q}
+        g = h.inline_root(prog, M, stop=lambda t: t.q in stopq)
+        cache = {}
 
+        def target(e):
+            if id(e) not in cache:
+                t = h.callee_of(prog, g, e)
+                cache[id(e)] = t.q if t is not None else None
+            return cache[id(e)]
+
+        def is_wait(e):
+            return e['ev'] == 'call' and (callback_kind(e) == ('method', 'poll') or ('callee' in e and target(e) in W))
+
+        def is_taskrun(e):
+            return e['ev'] == 'call' and (('fnexpr' in e and last_member(h.fn_target(e['fnexpr'])) == h.HANDLER)
+                                          or ('callee' in e and target(e) in T and target(e) not in W))
+
+        def touches(e):
+            if e['ev'] != 'call':
+                return False
+            if 'fnexpr' in e:
+                k = callback_kind(e)
+                if k and k[0] == 'method':
+                    return any(t.q in touch for t in prog.slot_targets(k[1]))
+                return True
+            return target(e) in touch
+
+        wf = h.WaitFlow(prog, g, is_taskrun, is_wait, touches)
+        sites = {}
+        for e in g.events():
+            if is_wait(e) and wf.at.get((e['_b'], e['_i'])):
+                sites.setdefault(e['loc'], []).append(e)
+        for loc, evs in sorted(sites.items()):
+            nsites += 1
+            res = {'deadline-is-local': True, 'tv_sec=0': True, 'tv_nsec=0': True}
+            tested, ran = False, True
+            for e in evs:
+                arg = _deadline_arg(prog, g, e)
+                for (pend, env, zeros, rn) in wf.at[(e['_b'], e['_i'])]:
+                    ran = ran and rn
+                    tested = tested or pend == 'N'
+                    if pend == 'E':
+                        continue
+                    dl = wf.value(arg, env, pend)
+                    L = dl[1] if isinstance(dl, tuple) and dl[0] == 'addr' else None
+                    Z = isinstance(dl, tuple) and dl[0] == 'zaddr'      # a never-written zero-initialised const object
+                    res['deadline-is-local'] = res['deadline-is-local'] and (L is not None or Z)
+                    res['tv_sec=0'] = res['tv_sec=0'] and (Z or (L is not None and (L, 'tv_sec') in zeros))
+                    res['tv_nsec=0'] = res['tv_nsec=0'] and (Z or (L is not None and (L, 'tv_nsec') in zeros))
+            for what in ('deadline-is-local', 'tv_sec=0', 'tv_nsec=0'):
+                ctx.ob('R-C06b', '%s:pending-tasks:%s' % (M.name, what), res[what], loc=loc,
+                       detail='on every path to the kernel wait on which the pending-task list was not found empty '
+                              '(with nothing since that could change it): %s' % what, fn=M.q)
+            if not tested:
+                ctx.ob('R-C06b', '%s:pending-tasks:tested' % M.name, False, loc=loc,
+                       detail='the poll deadline does not depend on a test of the pending-task list: with tasks pending the loop may sleep', fn=M.q)
+            ctx.ob('R-C06c', '%s:tasks-before-poll' % M.name, ran, loc=loc,
+                   detail='on every path to the kernel wait the task handlers were run since the previous wait (or entry)', fn=M.q)
+    if not nsites:
+        raise AnalysisBroken('%s: call that enters the kernel wait not found' % ', '.join(m.name for m in mains))
+
+
+# --------------------------------------------------------------------------
+# R-C06d: registration
+# --------------------------------------------------------------------------
 
 def register(ctx):
     prog = ctx.prog
-    f = prog.fn('iv_task_register')
-    hd = holding(f)
-    adds = [e for e in f.events() if is_call(e, ('iv_list_add', 'iv_list_add_tail')) and c01._list_arg_member(e) == ('iv_task_', 'list')]
-    if len(adds) < 2:
-        raise AnalysisBroken('iv_task_register: expected adds to the pending list and to the running batch')
-    cur = [e for e in adds if last_member(e['args'][1]) == ('iv_state', 'tasks_current')]
-    pend = [e for e in adds if last_member(strip(e['args'][1]).get('e') if strip(e['args'][1]).get('k') == 'addr' else None) == ('iv_state', 'tasks')]
-    ctx.ob('R-C06d', 'iv_task_register:targets', bool(cur) and bool(pend) and len(cur) + len(pend) == len(adds), loc=f.loc,
-           detail='a task is linked either into st->tasks or into the running batch *st->tasks_current', fn=f.q)
-    for e in cur:
-        A = hd.get((e['_b'], e['_i']), frozenset())
-        differs = any(a[0] == '!=' and {('iv_task_', 'epoch'), ('iv_state', 'task_epoch')} <= set(a[3]) for a in A)
-        running = any(a[0] == '!=' and a[2] == '0' and ('iv_state', 'tasks_current') in a[3] for a in A)
-        ctx.ob('R-C06d', 'iv_task_register:running-batch-only-if-not-run-yet', differs, loc=e['loc'],
-               detail='link into the running batch is on the edge t->epoch != st->task_epoch', path=None if differs else path_to(f, e), fn=f.q)
-        ctx.ob('R-C06d', 'iv_task_register:running-batch-exists', running, loc=e['loc'],
-               detail='... and on the edge st->tasks_current != NULL', fn=f.q)
+    owners = roles.functions_with(prog, lambda e: (e['ev'] == 'call' and any(h.addr_of_member(a) == h.LINK for a in e.get('args', [])))
+                                  or (e['ev'] == 'store' and h.LINK in h.lvalue_steps(e['lhs'])))
+    n = 0
+    for r in h.minimal_roots(prog, owners):
+        g = h.inlined(prog, r)
+        if not any(h.is_task_link(e) for e in g.events()):
+            continue
+        n += 1
+        sites, exits = h.link_alts(g)
+        alts = [a for v in sites.values() for a in v]
+        kinds = {a[0] for a in alts}
+        ctx.ob('R-C06d', '%s:targets' % r.name, kinds == {'P', 'R'}, loc=r.loc,
+               detail='a task is linked either into the pending list of the loop state or into the running batch it publishes '
+                      '(lists found: %s)' % sorted(kinds), fn=r.q)
+        ctx.ob('R-C06d', '%s:linked-once' % r.name, exits == {1}, loc=r.loc,
+               detail='every returning path links the task exactly once (links per path: %s)' % sorted(exits), fn=r.q)
+        for loc, v in sorted(sites.items()):
+            run_alts = [a for a in v if a[0] == 'R']
+            if not run_alts:
+                continue
+            e = run_alts[0][2]
+            differs = all(('differs', True) in a[1] for a in run_alts)
+            running = all(('running', True) in a[1] for a in run_alts)
+            ctx.ob('R-C06d', '%s:running-batch-only-if-not-run-yet' % r.name, differs, loc=loc,
+                   detail='every path that links the task into the running batch took the edge round stamp != round counter',
+                   path=None if differs else path_to(g, e), fn=r.q)
+            ctx.ob('R-C06d', '%s:running-batch-exists' % r.name, running, loc=loc,
+                   detail='... and the edge running-batch pointer != NULL', fn=r.q)
+    if not n:
+        raise AnalysisBroken('no exported function links a task into a list')
 
 
 def fresh_stamp(ctx):
-    """Every store to a task's round stamp other than the runner's own is the
-    current round counter (so a task initialised inside a running round is
-    deferred like one that already ran)."""
-    from .. import interp
+    """Every store to a task's round stamp stores the current round counter unless no loop state exists (so a task
+    initialised inside a running round is deferred like one that already ran, and a task that ran is deferred)."""
     prog = ctx.prog
-    n = 0
-    for (fn, e) in prog.writers_of('iv_task_', 'epoch'):
-        if fn.name == 'iv_run_tasks':
-            continue
-        n += 1
-        # evaluate the stored expression with a thread state present
-        stv = None
-        for x in walk(e['rhs']):
-            if x.get('k') == 'member' and last_member(x) == ('iv_state', 'task_epoch'):
-                stv = canon(x['base'])
-        ok = False
-        if stv is not None:
-            asg = interp.Assignment(bools={stv: True}, ints={'%s->task_epoch' % stv: 12345})
-            try:
-                ok = interp.evaluate(e['rhs'], asg, {}) == 12345
-            except interp.Undecided:
-                ok = False
-        ctx.ob('R-C06d', '%s:fresh-task-carries-current-round' % fn.name, ok, loc=e['loc'],
-               detail='%s: with a loop state present the stored stamp is the current round (st->task_epoch); a task (re)initialised '
-                      'inside a running round is then deferred to the next one' % describe(e), fn=fn.q)
-    if n == 0:
-        raise AnalysisBroken('no initialiser of the task round stamp found')
+    owners = []
+    for (fn, e) in prog.writers_of(*h.STAMP):
+        if fn not in owners:
+            owners.append(fn)
+    by_site = {}
+    for r in h.minimal_roots(prog, owners):
+        g = h.inlined(prog, r)
+        tf = h.TaskFlow(prog, g)
+        for e in g.events():
+            if e['ev'] != 'store' or last_member(e['lhs']) != h.STAMP:
+                continue
+            S = tf.at.get((e['_b'], e['_i']))
+            if S is None:
+                continue
+            ok = e.get('op') == '=' and (tf.val(e.get('rhs'), S) in ('C', 'Cn') or tf.no_state(S))
+            by_site.setdefault((h.origin_fn(prog, g, e).name, e['loc']), []).append((r, e, ok))
+    if not by_site:
+        raise AnalysisBroken('no store to the task round stamp found')
+    for (owner, loc), items in sorted(by_site.items()):
+        r, e = items[0][0], items[0][1]
+        ctx.ob('R-C06d', '%s:fresh-task-carries-current-round' % owner, all(x[2] for x in items), loc=loc,
+               detail='%s: with a loop state present the stored stamp equals the round counter; a task (re)initialised '
+                      'inside a running round is then deferred to the next one' % describe(e), fn=r.q)
 
+
+# --------------------------------------------------------------------------
+# R-C06e (+ batch drained, R-C06a)
+# --------------------------------------------------------------------------
 
 def batch_pointer(ctx):
+    prog = ctx.prog
+    owners = []
+    for (fn, e) in prog.writers_of(*h.CURRENT):
+        if fn not in owners:
+            owners.append(fn)
+    publ = {}
+    for r in h.minimal_roots(prog, owners):
+        g = h.inlined(prog, r)
+        decls = {e['name'] for e in g.events() if e['ev'] == 'decl'}
+        pubs = [e for e in g.events() if e['ev'] == 'store' and e.get('op') == '=' and last_member(e['lhs']) == h.CURRENT
+                and h.addr_of_local(e.get('rhs')) in decls]
+        for L in sorted({h.addr_of_local(e['rhs']) for e in pubs}):
+            mine = [e for e in pubs if h.addr_of_local(e['rhs']) == L]
+            for e in mine:
+                publ[e['loc']] = e
+            # (1) on every exit the pointer no longer holds the address of the frame's list head
+            def tr(x, s, L=L):
+                if x['ev'] == 'store' and h.CURRENT in h.lvalue_steps(x['lhs']):
+                    return h.addr_of_local(x.get('rhs')) == L if x.get('op') == '=' else False
+                return s
+            _, at = forward(g, False, tr, lambda a, b: a or b)
+            dangling = [p for p in h.exit_points(g) if at.get(p)]
+            ctx.ob('R-C06e', '%s:batch-pointer-cleared' % r.name, not dangling, loc=mine[0]['loc'],
+                   detail='the running-batch pointer is published the address of local %s; on every path to return it is overwritten '
+                          'with a value that is not the address of a local' % L, fn=r.q)
+            # (2) the batch that was detached into the local list is empty when the runner returns
+            def tr2(x, s, L=L):
+                if x['ev'] == 'decl' and x['name'] == L:
+                    return None
+                if x['ev'] != 'call':
+                    return s
+                if 'fnexpr' in x:
+                    return False if s is not None else None      # a handler may register into the running batch
+                c, args = x.get('callee'), x.get('args', [])
+                if c in h.LIST_MOVE_OUT and len(args) == 2:
+                    if h.addr_of_local(args[1]) == L:
+                        return False                               # the batch is detached into L
+                    if h.addr_of_local(args[0]) == L:
+                        return True if s is not None else None     # whatever is left is moved to another list
+                if c in h.LIST_ADD + ('iv_list_splice', 'iv_list_splice_tail', '__iv_list_splice') and any(h.addr_of_local(a) == L for a in args):
+                    return False
+                if c not in ('iv_list_empty',) + h.LIST_DEL and any(h.addr_of_local(a) == L for a in args):
+                    return False if s is not None else None
+                return s
+            def edge2(blk, si, s, L=L):
+                if s is False and blk.term and blk.term.get('cond') is not None and len(blk.succ) == 2:
+                    for atom in norm_cond(blk.term['cond'], si == 0):
+                        c = strip(atom[3])
+                        if atom[0] == '!=' and atom[2] == '0' and isinstance(c, dict) and c.get('k') == 'call' \
+                                and c.get('callee') == 'iv_list_empty' and c.get('args') and h.addr_of_local(c['args'][0]) == L:
+                            return True
+                return s
+            def jn(a, b):
+                if a is None or b is None:
+                    return a if b is None else b
+                return a and b
+            _, at2 = forward(g, None, tr2, jn, edge=edge2)
+            left = [p for p in h.exit_points(g) if at2.get(p) is False]
+            ctx.ob('R-C06a', '%s:batch-drained' % r.name, not left, loc=mine[0]['loc'],
+                   detail='after the pending tasks were detached into local %s the function returns only on the edge where that list is '
+                          'empty (or after moving the rest to another list): no detached task is dropped' % L, fn=r.q)
+    if not publ:
+        raise AnalysisBroken('no function publishes the address of a local batch in the running-batch pointer any more')
+    # the dead-frame rule of C18 (borrowed; owned by C18) restricted to the same publishing stores
     sub = []
-    class Sub:
-        pass
-    # reuse the dead-frame rule of C18 restricted to the task runner
     import types
-    proxy = types.SimpleNamespace(prog=ctx.prog, ob=lambda rid, inst, ok, **kw: sub.append((inst, ok, kw)))
+    proxy = types.SimpleNamespace(prog=prog, ob=lambda rid, inst, ok, **kw: sub.append((inst, ok, kw)))
     c18.dead_frames(proxy)
-    hit = [x for x in sub if x[0].startswith('iv_run_tasks:')]
-    if not hit:
-        raise AnalysisBroken('iv_run_tasks does not publish the address of its batch any more')
-    for inst, ok, kw in hit:
-        ctx.ob('R-C06e', inst, ok, **kw)
+    locs = {relpath(l) for l in publ} | set(publ)
+    for inst, ok, kw in sub:
+        if kw.get('loc') in locs or relpath(kw.get('loc') or '') in locs:
+            ctx.ob('R-C06e', inst, ok, **kw)
